@@ -125,6 +125,30 @@ def _reads_series_at_index(fn: ast.FunctionDef) -> bool:
     return seen > 0
 
 
+def _canonical_params(fn: ast.FunctionDef):
+    """The rules below speak of `x` and `index`: rename the two parameters of a projection closure to these names (in the
+    loaded tree only), so that the analysis does not depend on what the parameters are called."""
+    params = [a.arg for a in fn.args.args]
+    if len(params) != 2 or fn.args.vararg or fn.args.kwarg or fn.args.kwonlyargs:
+        raise AnalysisError(RULE, f"{fn.name}: signature is not (x, index)")
+    ren = {p_: q for p_, q in zip(params, ("x", "index")) if p_ != q}
+    if not ren:
+        return
+    used = {n.id for n in ast.walk(fn) if isinstance(n, ast.Name)}
+    if any(q in used and q not in params for q in ren.values()):
+        raise AnalysisError(RULE, f"{fn.name}: cannot rename parameters {params} to (x, index) without capture")
+    for a, q in zip(fn.args.args, ("x", "index")):
+        a.arg = q
+    tmp = {p_: f"__{i}__" for i, p_ in enumerate(ren)}  # two-step, in case the names are swapped
+    for n in ast.walk(fn):
+        if isinstance(n, ast.Name) and n.id in tmp:
+            n.id = tmp[n.id]
+    back = {tmp[p_]: q for p_, q in ren.items()}
+    for n in ast.walk(fn):
+        if isinstance(n, ast.Name) and n.id in back:
+            n.id = back[n.id]
+
+
 def rule_projection_pairs(rep: Report, repo: Repo):
     f = repo.find(f"{MOD}::block_diagonalize", RULE)
     loc = lambda n: repo.loc(MOD, n)
@@ -133,6 +157,8 @@ def rule_projection_pairs(rep: Report, repo: Repo):
     if len(diags) != len(offs) or not diags:
         raise AnalysisError(RULE, f"{len(diags)} diag / {len(offs)} offdiag closures")
     rep.floor(RULE, "(diag, offdiag) closure pairs", len(diags), 2)
+    for fn in diags + offs:
+        _canonical_params(fn)
     from .sem import Scope
     scope = Scope(repo.trees[MOD], f)
     for k, (d, o) in enumerate(zip(diags, offs)):
